@@ -7,6 +7,11 @@ from typing import Literal
 
 LOG = []
 PRED = []
+RAISE = [False]
+
+
+class Boom(TypeError):
+    """raised by a method body on request: an ordinary error of the selected method (a TypeError, like the ones the dispatcher raises itself)"""
 _RANK = {bool: 0, int: 1, str: 1, list: 1, tuple: 1, dict: 1, object: 2}
 
 
@@ -15,6 +20,8 @@ def _outcome(call):
     del PRED[:]
     try:
         call()
+    except Boom as e:
+        return ("BOOM", e.args[0], tuple(LOG))
     except TypeError as e:
         msg = str(e)
         if msg.startswith("Ambiguous resolution"):
@@ -79,21 +86,21 @@ def one_position_module(methods, corpus, checks, prelude=""):
             L.append(f"def p{i}(x):\n    PRED.append(({b}, x))\n    return {m['pred']}")
             if m.get("double"):
                 L.append(f"def p{i}b(x):\n    PRED.append(({b}, x))\n    return True")
-                L.append(f"def m{i}(x: (Dependent[{b}, p{i}] & Dependent[{b}, p{i}b]) | {m['other']}):\n    LOG.append({i})\n    return {i}")
+                L.append(f"def m{i}(x: (Dependent[{b}, p{i}] & Dependent[{b}, p{i}b]) | {m['other']}):\n    LOG.append({i})\n    if RAISE[0]:\n        raise Boom({i})\n    return {i}")
             else:
-                L.append(f"def m{i}(x: Dependent[{b}, p{i}] | {m['other']}):\n    LOG.append({i})\n    return {i}")
+                L.append(f"def m{i}(x: Dependent[{b}, p{i}] | {m['other']}):\n    LOG.append({i})\n    if RAISE[0]:\n        raise Boom({i})\n    return {i}")
             L.append(f"METHODS.append(dict(idx={i}, kind='dep', bound=({b}, {m['other']}), "
                      f"holds=(lambda x: (isinstance(x, {b}) and ({m['pred']})) or isinstance(x, {m['other']})), prio={m['prio']}))")
         elif m["kind"] == "ann":
             # value type given by an annotation expression; documented meaning given as a python expression over x
-            L.append(f"def m{i}(x: {m['ann']}):\n    LOG.append({i})\n    return {i}")
+            L.append(f"def m{i}(x: {m['ann']}):\n    LOG.append({i})\n    if RAISE[0]:\n        raise Boom({i})\n    return {i}")
             L.append(f"METHODS.append(dict(idx={i}, kind='dep', bound={b}, holds=(lambda x: {m['pred']}), prio={m['prio']}))")
         elif m["kind"] == "dep":
             L.append(f"def p{i}(x):\n    PRED.append(({b}, x))\n    return {m['pred']}")
-            L.append(f"def m{i}(x: Dependent[{b}, p{i}]):\n    LOG.append({i})\n    return {i}")
+            L.append(f"def m{i}(x: Dependent[{b}, p{i}]):\n    LOG.append({i})\n    if RAISE[0]:\n        raise Boom({i})\n    return {i}")
             L.append(f"METHODS.append(dict(idx={i}, kind='dep', bound={b}, holds=(lambda x: {m['pred']}), prio={m['prio']}))")
         else:
-            L.append(f"def m{i}(x: {b}):\n    LOG.append({i})\n    return {i}")
+            L.append(f"def m{i}(x: {b}):\n    LOG.append({i})\n    if RAISE[0]:\n        raise Boom({i})\n    return {i}")
             L.append(f"METHODS.append(dict(idx={i}, kind='static', bound={b}, prio={m['prio']}))")
         L.append(f"f.register(m{i}, priority={m['prio']})")
     L.append("F = f.dispatch")
@@ -105,6 +112,11 @@ def one_position_module(methods, corpus, checks, prelude=""):
                  f"    got = _outcome(lambda: F(x))\n    exp = _spec1(METHODS, x)\n"
                  f"    if isinstance(exp, tuple):\n        return (got == 'AMB' or got in exp[1]) and _pred_ok()\n"
                  f"    return got == exp and _pred_ok()")
+        # an error raised by the selected method reaches the caller unchanged, and no other method runs in its place
+        L.append(f"def check_raise_{suffix}(x: {typ}) -> bool:\n    \"\"\"\n{doc}\n    \"\"\"\n"
+                 f"    exp = _spec1(METHODS, x)\n    if not isinstance(exp, int):\n        return True\n"
+                 f"    RAISE[0] = True\n    try:\n        got = _outcome(lambda: F(x))\n    finally:\n        RAISE[0] = False\n"
+                 f"    return got == ('BOOM', exp, (exp,))")
         for i, m in enumerate(methods):
             L.append(f"def reach_{suffix}_m{i}(x: {typ}) -> bool:\n    \"\"\"\n{doc.replace('post: _', 'post: not _')}\n    \"\"\"\n"
                      f"    return _outcome(lambda: F(x)) == {i}")
